@@ -49,7 +49,11 @@ RULE = ("sweep: every element (119), isotope, element ion and isotope ion of the
         "return the same objects. growth: four private-table histories (all lists read first / isotope('2-H') first / iteration first / "
         "nothing first), then mass.init, the other loaders, and add_isotope of unused mass numbers for every element "
         "with listings in between; after every step el.isotopes == iteration == the A for which el[A] and "
-        "isotope('A-Sym') give the one object. dropped table: a helper builds a private table and returns only atoms (all 17765 of "
+        "isotope('A-Sym') give the one object. define_elements: public / private-a / private-b (all 6 orders, repeats, a bare table) "
+        "exported one after the other into one dict that starts empty, with unrelated entries, or as the result of "
+        "'from periodictable import *'; after each export every symbol and name (incl. n, D, T, deuterium, tritium) is "
+        "the atom of the table exported last, the returned list names exactly those keys, other entries are untouched "
+        "(non-trivial from the second export on). dropped table: a helper builds a private table and returns only atoms (all 17765 of "
         "them / one atom of each class per table / a Formula holding them); after gc.collect() every pickle protocol, "
         "copy, deepcopy and container round trip must return the kept atom itself; a second table of the freed name is "
         "refused, or else leaves those round trips intact. machine: Hypothesis draws 1-3 atoms (all classes incl. D/T) and 2-30 operations on "
@@ -577,6 +581,82 @@ def task_dropped(ctx, variant):
     dropped_history(variant, lambda b, m: ctx.violation(b, m, case),
                     lambda stage, k: ctx.case((variant, stage, k), True, {"dropped-table": variant, "stage": stage, "what": k},
                                               ["dropped:" + variant, "dropped-stage:" + stage.split(":")[0]]))
+
+
+# ----------------------------------------------------------------------
+# define_elements(table, namespace): "Define external variables for each element in namespace. Elements are
+# defined both by name and by symbol."  After the call every symbol/name variable is the atom of THAT table.
+def expected_exports(T):
+    """{key: atom of T} for all symbols and names incl. n/neutron, D/deuterium, T/tritium."""
+    out = {}
+    for Z in range(119):
+        el = T[Z]
+        out[SYMBOLS[Z]] = el
+        out[el.name] = el
+    out["D"], out["T"] = T[1][2], T[1][3]
+    out["deuterium"], out["tritium"] = T[1][2], T[1][3]
+    return out
+
+
+def check_export(T, cfg, ns, returned, label, before):
+    want = expected_exports(T)
+    for k, x in sorted(want.items()):
+        if k not in ns:
+            yield ("c08:define_elements:missing", "%s: after define_elements(%s, ns) ns has no %r" % (label, cfg, k))
+        elif ns[k] is not x:
+            got = ns[k]
+            yield ("c08:define_elements:other-object",
+                   "%s: after define_elements(%s, ns) ns[%r] is %r of table %r, not the atom of %s"
+                   % (label, cfg, k, got, getattr(got, "table", "?"), cfg))
+    if sorted(returned) != sorted(want):
+        yield ("c08:define_elements:returned-names", "%s: define_elements(%s) returned %d names, %d symbols+names expected"
+               % (label, cfg, len(returned), len(want)))
+    for k, v in before.items():
+        if k not in want and (k not in ns or ns[k] is not v):
+            yield ("c08:define_elements:clobbered", "%s: unrelated namespace entry %r changed" % (label, k))
+
+
+def export_history(order, start, report, case_fn=None):
+    """Export the tables of *order* one after the other into one namespace that starts as *start*."""
+    import periodictable
+    from periodictable import core
+    if start == "empty":
+        ns = {}
+    elif start == "unrelated":
+        ns = {"x": 1, "elements": "mine", "Fe2O3": object(), "iron_oxide": None}
+    elif start == "package":            # what `from periodictable import *` leaves in a module's globals
+        ns = dict((k, getattr(periodictable, k)) for k in periodictable.__all__)
+    else:
+        raise ValueError(start)
+    label = "%s namespace, exports %s" % (start, " then ".join(order))
+    for n, cfg in enumerate(order):
+        T = table(cfg)
+        before = dict(ns)
+        returned = core.define_elements(T, ns)
+        if case_fn:
+            case_fn(n, cfg)
+        for b, m in check_export(T, cfg, ns, returned, label + " [after #%d]" % (n + 1), before):
+            report(b, m)
+
+
+EXPORT_ORDERS = [list(p) for p in __import__("itertools").permutations(["public", "private-a", "private-b"])] + \
+    [["public"], ["private-a"], ["private-a", "private-a"], ["public", "private-a", "public"], ["bare", "public", "bare"]]
+
+
+def task_exports(ctx):
+    for start in ("empty", "unrelated", "package"):
+        for order in EXPORT_ORDERS:
+            case = {"kind": "export", "order": order, "start": start}
+            export_history(order, start, lambda b, m: ctx.violation(b, m, case),
+                           lambda n, cfg: ctx.case((start, tuple(order), n), n > 0 or start == "package",
+                                                   {"define_elements": order, "namespace": start, "step": n},
+                                                   ["export:" + start, "export-step:%d" % n, "export-table:" + cfg]))
+    # the package's own namespace carries the public table
+    import periodictable
+    for k, x in sorted(expected_exports(periodictable.elements).items()):
+        if getattr(periodictable, k, None) is not x:
+            ctx.violation("c08:define_elements:package", "periodictable.%s is not the public table's atom" % k,
+                          {"kind": "export", "order": [], "start": "package"})
 
 
 def task_growth(ctx, variant):
@@ -1216,6 +1296,7 @@ def tasks(tier):
            ("invalid-private-b", task_invalid, dict(cfg="private-b"))]
     out += [("growth-" + v, task_growth, dict(variant=v)) for v in GROWTH_VARIANTS]
     out += [("dropped-" + v, task_dropped, dict(variant=v)) for v in DROP_VARIANTS]
+    out += [("define-elements", task_exports, {})]
     if tier == "quick":
         out += [("machine-%d" % k, task_machine, dict(n=300, preimport=bool(k % 2))) for k in range(4)]
     else:
@@ -1227,6 +1308,9 @@ def replay(ctx, case):
     kind = case["kind"]
     if kind == "machine":
         check_machine(ctx, [case["atoms"], case["ops"]])
+        return
+    if kind == "export":
+        export_history(case["order"], case["start"], lambda b, m: ctx.violation(b, m, case))
         return
     if kind == "dropped":
         dropped_history(case["variant"], lambda b, m: ctx.violation(b, m, case))
